@@ -7,5 +7,5 @@ MCShapes == CustomShapes
 MCProps == {"C17"}
 MCScript == <<"SetObj", "LoadRaw", "CopyTo">>
 ASSUME PrintT("SHAPES " \o ToJson(MCShapes))
-INSTANCE Session WITH Shapes <- MCShapes, Script <- MCScript, Deep <- MCDeep, Props <- MCProps, ObjMode <- "all", RawMode <- "reduced"
+INSTANCE Session WITH Shapes <- MCShapes, Script <- MCScript, Deep <- MCDeep, Props <- MCProps, ObjMode <- "all", RawMode <- "reduced", EmptyMode <- "plain"
 ====
